@@ -2,8 +2,14 @@
 // SPDX-License-Identifier: GPL-3.0-or-later
 
 use std::collections::HashMap;
+#[cfg(not(feature = "verif_sim"))]
 use std::fs;
+#[cfg(not(feature = "verif_sim"))]
 use std::fs::{DirEntry, ReadDir};
+#[cfg(feature = "verif_sim")]
+use crate::vfs as fs;
+#[cfg(feature = "verif_sim")]
+use crate::vfs::{DirEntry, ReadDir};
 use std::path::PathBuf;
 
 use tracing::{debug, warn};
